@@ -380,7 +380,7 @@ for nm, what in (("alias_is_legal", "generate(): every byte of the alias is lega
                  ("alias_retry_progress", "next_iteration changes only the hash (+1) and clears both bitmaps; generation then succeeds; u16_to_hex is exact upper-case hex")):
     add(H("dir::verif::" + nm, ["C16"], what,
           "every name accepted by validate_long_name of 1..=5 bytes (incl. multi-byte), every collision state (bitmaps, exact-match flag, hash); memchr stubs",
-          stubs=True, timeout=1800),
+          stubs=True, timeout=3600, tier="thorough" if nm == "alias_never_equals_existing" else "quick"),
         H("dir::verif::" + nm + "_8bytes", ["C16"], what, "same with names of 1..=8 bytes", stubs=True, tier="thorough", timeout=7200))
 add(twin("dir::verif::twin_alias_generate_never_fails", ["C16"], "claims alias generation can never fail", "is_ok()", stubs=True))
 
@@ -400,3 +400,8 @@ for n, what in (("fault_file_read16", "read starting on a cluster boundary"), ("
                 ("fault_file_extents16", "extents iteration")):
     add(H("file::verif::" + n, ["C09"], "single fault at the k-th device call of File %s => Error::Io(device error); no fault => success; terminates" % what,
           FAULT_FS, mode="path"))
+for nm in ("fits", "long", "one_char", "leading_dot", "non_ascii", "lossy"):
+    add(H("dir::verif::alias_unique_" + nm, ["C16"],
+          "uniqueness lemma for a fixed name of this shape: after add_existing(e) the generated alias differs from e and is legal",
+          "concrete name x every collision state (bitmaps, flag, hash) x every 11-byte existing entry; memchr stubs", stubs=True,
+          tier="thorough" if nm == "one_char" else "quick", timeout=3600 if nm == "one_char" else 900))
